@@ -881,11 +881,18 @@ func mainC13(rng *sx.Rng, out caser, thorough bool) {
 		runConnClose(out, 2, cap, []int{0, 1}, 0, 2, nfail-1, true, 0)
 	}
 	lap("conn-close")
+	// queue capacities: 4 everywhere; 1 (quick) and 1, 2, 8 (thorough) in the families about fill levels
+	caps := []int{4, 1}
+	if thorough {
+		caps = []int{4, 1, 2, 8}
+	}
 	// fn 1: cancelled before the call, every fill level 0..cap+3
-	for _, kind := range kinds {
-		for mode := 0; mode < 4; mode++ {
-			for nfed := 0; nfed <= cap+3; nfed++ {
-				runRecvCancelled(out, kind, cap, mode, nfed, nfed+2)
+	for _, cap := range caps {
+		for _, kind := range kinds {
+			for mode := 0; mode < 4; mode++ {
+				for nfed := 0; nfed <= cap+3; nfed++ {
+					runRecvCancelled(out, kind, cap, mode, nfed, nfed+2)
+				}
 			}
 		}
 	}
@@ -951,19 +958,24 @@ func mainC13(rng *sx.Rng, out caser, thorough bool) {
 	// fn 6: response abandoned after j packages, then Close; the cases in which more packages are undelivered than
 	// the queue holds block for good (known finding) and are observed in parallel
 	fs = nil
-	for _, kind := range kinds {
-		for nfed := 0; nfed <= cap+3; nfed++ {
-			for _, ncons := range []int{0, 1, 3} {
-				if ncons > nfed {
-					continue
-				}
-				for _, peer := range []int{0, 1} {
-					if peer == 1 && (kind == 1 || nfed > ncons) {
-						continue // the logout answer only matters for channel 0 with an empty queue
+	for _, cap := range caps {
+		for _, kind := range kinds {
+			for nfed := 0; nfed <= cap+3; nfed++ {
+				for _, ncons := range []int{0, 1, 3} {
+					if ncons > nfed {
+						continue
 					}
-					kind, nfed, ncons, peer := kind, nfed, ncons, peer
-					bound := hangBound
-					fs = append(fs, func(c caser) { runCloseFill(c, kind, cap, nfed, ncons, peer, bound) })
+					for _, peer := range []int{0, 1} {
+						if peer == 1 && (kind == 1 || nfed > ncons) {
+							continue // the logout answer only matters for channel 0 with an empty queue
+						}
+						kind, cap, nfed, ncons, peer := kind, cap, nfed, ncons, peer
+						bound := hangBound
+						if kind == 1 && nfed-ncons > cap {
+							bound = knownBound // known finding: observed for a shorter time
+						}
+						fs = append(fs, func(c caser) { runCloseFill(c, kind, cap, nfed, ncons, peer, bound) })
+					}
 				}
 			}
 		}
